@@ -24,6 +24,12 @@ def esc(s):
 
 def key_descriptor(use, key_index):
     u = ' use="%s"' % use if use else ""
+    if key_index == "keyname":
+        # a key that is only named (the certificate is expected to be known otherwise): legal, and nothing a certificate lookup can use
+        return '<md:KeyDescriptor%s><ds:KeyInfo><ds:KeyName>signing-key-2020</ds:KeyName></ds:KeyInfo></md:KeyDescriptor>' % u
+    if key_index == "x509-without-certificate":
+        return ('<md:KeyDescriptor%s><ds:KeyInfo><ds:X509Data><ds:X509SubjectName>CN=idp</ds:X509SubjectName></ds:X509Data></ds:KeyInfo>'
+                '</md:KeyDescriptor>') % u
     return ('<md:KeyDescriptor%s><ds:KeyInfo><ds:X509Data><ds:X509Certificate>%s</ds:X509Certificate></ds:X509Data></ds:KeyInfo>'
             '</md:KeyDescriptor>') % (u, fed.cert_body(key_index))
 
